@@ -85,6 +85,21 @@ def r16_1(ctx):
                         # the other side is the (remaining) query value: parameter #2 or its loop-carried version
                         if other[0] in ('param', 'havoc') or any(x[0] in ('param', 'havoc') for x in walk(other)):
                             ok_fo = True
+                # both tests must be about the SAME node (the one the descent currently stands on): a final output read from
+                # another node (e.g. hoisted out of the loop) certifies keys whose own final output differs
+                def node_args(ds, callee):
+                    out = []
+                    for d in ds:
+                        for x in walk(d[2]):
+                            if x[0] == 'call' and x[1] == callee and x[2]:
+                                out.append(x[2][0])
+                    return out
+                from rules.streams import norm as _norm
+                fin_nodes = {_norm(a) for a in node_args([d for d in fin if d[3] == 1], IS_FINAL)}
+                fo_nodes = {_norm(a) for a in node_args(fo, FINAL_OUTPUT)}
+                same_node = bool(fin_nodes) and bool(fo_nodes) and fo_nodes <= fin_nodes
+                ctx.check(R, same_node or not (ok_fin and ok_fo), 'success-same-node',
+                          'success is decided by the finality of one node and the final output of another (%s vs %s)' % (sorted(fmt(a)[:40] for a in fin_nodes), sorted(fmt(a)[:40] for a in fo_nodes)), fn=g)
                 ctx.check(R, ok_fin and ok_fo, 'success-condition',
                           'a path reports success without requiring "node is final and its final output equals the remaining value" (finality tested: %s, final output compared: %s)' % (ok_fin, ok_fo),
                           fn=g, detail=[fmt(d[2])[:100] + ' = ' + str(d[3]) for d in p.decisions][-4:])
